@@ -40,6 +40,11 @@ type Config struct {
 	ServerPattern PatternSpec `json:"serverPattern"`
 	HintMandatory bool        `json:"hintMandatory,omitempty"`
 	Port          int         `json:"port,omitempty"` // server port, default 7000
+	// BothTransports makes the server listen on TCP and UDP (same port); the
+	// client still uses the transport selected by UDP.
+	BothTransports bool `json:"bothTransports,omitempty"`
+	// Quotas[i] (days, megabytes pairs) are attached to server user i.
+	Quotas map[int][][2]int32 `json:"quotas,omitempty"`
 }
 
 // Env is a running client/server pair.
@@ -92,8 +97,19 @@ func (c *Config) ServerConfigProto() *pb.ServerConfig {
 		PortBindings:   []*pb.PortBinding{{Port: proto.Int32(int32(c.port())), Protocol: proto_.Enum()}},
 		TrafficPattern: c.ServerPattern.Proto(),
 	}
-	for _, u := range c.users() {
-		sc.Users = append(sc.Users, &pb.User{Name: proto.String(u.Name), Password: proto.String(u.Password)})
+	if c.BothTransports {
+		other := pb.TransportProtocol_UDP
+		if c.UDP {
+			other = pb.TransportProtocol_TCP
+		}
+		sc.PortBindings = append(sc.PortBindings, &pb.PortBinding{Port: proto.Int32(int32(c.port())), Protocol: other.Enum()})
+	}
+	for i, u := range c.users() {
+		pu := &pb.User{Name: proto.String(u.Name), Password: proto.String(u.Password)}
+		for _, q := range c.Quotas[i] {
+			pu.Quotas = append(pu.Quotas, &pb.Quota{Days: proto.Int32(q[0]), Megabytes: proto.Int32(q[1])})
+		}
+		sc.Users = append(sc.Users, pu)
 	}
 	if c.ServerMTU != 0 {
 		sc.Mtu = proto.Int32(int32(c.ServerMTU))
